@@ -824,7 +824,7 @@ class Compiler:
                 try_ctx.in_finalizer = True
                 try_ctx.stack_slots = 1
                 self._compile_statement(node.finalizer)
-                self._emit(OpCode.THROW)  # Rethrow the exception
+                self._emit(OpCode.RETHROW)  # Go on with the exception (it keeps its location)
 
             self.loop_stack.pop()
 
